@@ -12,27 +12,25 @@ let zi z = int_of_z z
 let () = iter_lines (fun line ->
   match words line with
   | _cfg :: mc :: st :: bc :: _lin :: _multi :: "N" :: layout :: ops ->
-    (* node script: <layout C|I> then ops L<c0> | T<c0> | A<index>:<key> | R<index>; every function is extracted Gallina (NodeScript.v) *)
+    (* node script: <layout C|I> then ops L<c0> | T<c0> | A<index>:<key> | R<index>; every state change is extracted Gallina
+       (NodeScript.v, which calls the cxx2coq-generated node operations) *)
     let mcn = int_of_string mc in
     let mc = nat_of_int mcn and st = nat_of_int (int_of_string st) and bc = nat_of_int (int_of_string bc) in
     let cont = (layout = "C") in
     let s = ref (ns_create mc st bc true (nat_of_int 0)) in
     let nextchild = ref 1000 in
     let buf = Buffer.create 256 in
+    let zs l = String.concat "," (List.map (fun z -> string_of_int (int_of_z z)) l) in
     let dump () =
       let st_ = !s in
       let cap = int_of_z (ns_capacity mc st st_) in
-      let cnt = int_of_z (ns_cnt st_) in
-      Buffer.add_string buf (Printf.sprintf "%d/%d/%d/%d;" cnt (int_of_z (ns_mpi st_)) cap (if ns_is_leaf mc st st_ then 1 else 0));
-      if cont then Buffer.add_char buf '-'
-      else Buffer.add_string buf (String.concat "," (List.map (fun n -> string_of_int (int_of_nat n)) (ns_table st_)));
+      Buffer.add_string buf (Printf.sprintf "%d/%d/%d/%d;" (int_of_z (ns_cnt st_)) (int_of_z (ns_mpi st_)) cap (if ns_is_leaf mc st st_ then 1 else 0));
+      if cont then Buffer.add_char buf '-' else Buffer.add_string buf (zs (ns_table mc st_));
       Buffer.add_char buf ';';
-      let sl = List.init cap (fun i -> if ns_live cont st_ (nat_of_int i) then string_of_int (int_of_z (ns_slot st_ (nat_of_int i))) else "_") in
+      let sl = List.init cap (fun i -> if ns_live cont st_ (z_of_int i) then string_of_int (int_of_z (ns_slot st_ (z_of_int i))) else "_") in
       Buffer.add_string buf (String.concat "," sl);
       Buffer.add_char buf ';';
-      if ns_is_leaf mc st st_ then Buffer.add_char buf '-'
-      else Buffer.add_string buf (String.concat "," (List.map (fun z -> string_of_int (int_of_z z)) (ns_children st_)));
-      if int_of_nat (ns_hand_count st_) <> cnt then Buffer.add_string buf "?count" in
+      if ns_is_leaf mc st st_ then Buffer.add_char buf '-' else Buffer.add_string buf (zs (ns_children st_)) in
     let first = ref true in
     List.iter (fun op ->
       if not !first then Buffer.add_char buf ' ';
@@ -46,11 +44,11 @@ let () = iter_lines (fun line ->
       | 'L' -> s := ns_create mc st bc true (nat_of_int (min a1 mcn)); nextchild := 1000; dump ()
       | 'T' -> s := ns_create mc st bc false (nat_of_int (min a1 mcn)); nextchild := 1000; dump ()
       | 'A' ->
-        (match ns_accept mc st cont !s (nat_of_int a1) (z_of_int a2) (z_of_int !nextchild) with
+        (match ns_accept mc st cont !s (z_of_int a1) (z_of_int a2) (z_of_int !nextchild) with
          | Some s' -> s := s'; incr nextchild; dump ()
          | None -> Buffer.add_char buf 'S')
       | 'R' ->
-        (match ns_remove mc st cont !s (nat_of_int a1) with
+        (match ns_remove mc st cont !s (z_of_int a1) with
          | Some s' -> s := s'; dump ()
          | None -> Buffer.add_char buf 'S')
       | _ -> Buffer.add_string buf "?op") ops;
